@@ -279,6 +279,9 @@ fn cut_bytes_stream<R: BufRead, W: Write>(
         let mut prev_chunk_may_be_truncated = false;
         let mut eol_reached = false;
         let mut empty_line = true;
+        // true once the last interesting field has been printed: what is
+        // left of the line is skipped, however many chunks it takes
+        let mut skip_to_eol = false;
 
         'new_chunk: while !eol_reached && !eof {
             let chunk = stdin.fill_buf()?;
@@ -292,6 +295,19 @@ fn cut_bytes_stream<R: BufRead, W: Write>(
             }
 
             empty_line = false;
+
+            if skip_to_eol {
+                let bytes_to_consume = match memchr::memchr(eol, chunk) {
+                    Some(eol_idx) => {
+                        eol_reached = true;
+                        stdout.write_all(&[opt.eol.into()])?;
+                        eol_idx + 1
+                    }
+                    None => chunk.len(),
+                };
+                stdin.consume(bytes_to_consume);
+                continue 'new_chunk;
+            }
 
             let mut chunk_part_start_idx = 0;
             let mut bytes_to_consume = 0;
@@ -341,6 +357,7 @@ fn cut_bytes_stream<R: BufRead, W: Write>(
                     print_filler_or_fallbacks(stdout, bof_idx, opt)?;
 
                     // Attempt to skip to EOL (if it's not in this chunk we'll wait for the next chunk)
+                    skip_to_eol = true;
                     if let Some(eol_idx) = memchr::memchr(eol, &chunk[bytes_to_consume..]) {
                         bytes_to_consume = bytes_to_consume + eol_idx + 1;
                         eol_reached = true;
@@ -357,7 +374,7 @@ fn cut_bytes_stream<R: BufRead, W: Write>(
             if !eol_reached {
                 let chunk_has_unused_content = chunk.len() > bytes_to_consume;
 
-                if chunk_has_unused_content {
+                if chunk_has_unused_content && !skip_to_eol {
                     // Process potential partial field
                     bof_idx = print_bof(
                         stdout,
@@ -383,19 +400,21 @@ fn cut_bytes_stream<R: BufRead, W: Write>(
 
         // Handle EOF at end of line
         if eof && !eol_reached {
-            // The field that was being read ends here
-            bof_idx = print_bof(
-                stdout,
-                opt,
-                bof_idx,
-                curr_field,
-                &[],
-                0,
-                0,
-                prev_chunk_may_be_truncated,
-                true,
-            )?;
-            print_filler_or_fallbacks(stdout, bof_idx, opt)?;
+            if !skip_to_eol {
+                // The field that was being read ends here
+                bof_idx = print_bof(
+                    stdout,
+                    opt,
+                    bof_idx,
+                    curr_field,
+                    &[],
+                    0,
+                    0,
+                    prev_chunk_may_be_truncated,
+                    true,
+                )?;
+                print_filler_or_fallbacks(stdout, bof_idx, opt)?;
+            }
             stdout.write_all(&[opt.eol.into()])?;
             break 'new_line;
         }
